@@ -97,8 +97,8 @@ Fixpoint xc_walk (fuel : nat) (cm : list cme) (v : value) (off : nat) : option (
       | _ => Some []
       end
   end.
-Definition xc_doc (cs : list N) :=
-  match parse_str cs with
+Definition xc_doc (o : opts) (cs : list N) :=
+  match parse_str_with o cs with
   | Ok (v, cm) =>
       (0, Some (value_volume v, count_where xc_is_container v, map xc_tag (traverse v),
                 map (fun i => match get_fragment v i with inl f => inl (xc_tag f) | inr r => inr r end)
@@ -492,7 +492,7 @@ def case_term(fam, case):
             return f"xc_c02 (parse_slice_with {opts_term(t[1])} {cps_term(t[2])})"
     if fam == "c11" and len(t) == 3:
         if t[0] == "s":
-            return f"xc_doc {cps_term(t[2])}"
+            return f"xc_doc {opts_term(t[1])} {cps_term(t[2])}"
         if t[0] == "t":
             ty = ""
             for ch in t[1][:-1]:
@@ -730,7 +730,7 @@ def _c11_model_line(ast):
                 uniq = "none" if not l else "one%d" % l[0][1] if len(l) == 1 else "dup%d+%d" % (l[0][1], l[1][1])
                 nav.append(" K%d<%s>%s:%s:1" % (off, cps_tok(k), a, uniq))
     n = len(tr)
-    return "V=%d C=%d CA=%d/%d/%d/%d/%d/%d T=%s F=%s S=1 N=%s" % (
+    return "V=%d C=%d CA=%d/%d/%d/%d/%d/%d T=%s F=%s S=1 DL=1 N=%s" % (
         vol, n, containers, n, tr.count("k"), tr.count("e"), len([i for i in range(n) if i % 2 == 0]),
         len([i for i in range(n) if i % 3 == 1 and tr[i][0] == "v"]),
         ",".join("%d%s" % (i, f) for i, f in enumerate(tr)), ",".join(fr), "".join(nav) or " -")
@@ -1453,7 +1453,8 @@ def _b_serde_line(fam, ast):
 
 # ------------------------------------------------------------------ C03
 _B_C03_BAD = ("arr_garbage", "obj_garbage", "arr_sibling", "long_number_bad")
-_B_C03_LONG = ("ws_run", "ws_run_open", "long_string", "long_string_open", "long_number", "long_number_bad", "wide_arr", "wide_obj")
+_B_C03_LONG = ("ws_run", "ws_run_open", "long_string", "long_string_open", "long_number", "long_number_bad", "wide_arr", "wide_obj",
+               "hi_run", "lo_run", "pair_run", "hi_run_key")
 
 
 def _b_deep_doc(shape, d):
@@ -1486,6 +1487,14 @@ def _b_deep_doc(shape, d):
         return "[0" + ",0" * d + "]"
     if shape == "wide_obj":
         return '{"a":0' + ',"a":0' * d + "}"
+    if shape == "hi_run":
+        return '"' + "\\ud800" * d + '"'
+    if shape == "lo_run":
+        return '["' + "\\udc00" * d + '"]'
+    if shape == "pair_run":
+        return '"' + "\\ud83d\\ude00" * d + '"'
+    if shape == "hi_run_key":
+        return '{"' + "\\udbff" * d + 'x":0}'
     return "null"
 
 
@@ -1495,9 +1504,12 @@ def _b_c03_term(t):
         if not (d <= 500 or (shape in _B_C03_LONG and d <= 1000)):
             raise _BSkip("closed-form")     # the driver answers from the shape alone: no model evaluation to cross-check
         doc = "[" + "; ".join(str(ord(c)) for c in _b_deep_doc(shape, d)) + "]"
-        err = 1 if (shape in _B_C03_BAD or shape.endswith("_open") and len(shape) > 5) else 0
+        err = 1 if (shape in _B_C03_BAD or shape.endswith("_open") and len(shape) > 5
+                    or d > 0 and shape in ("hi_run", "hi_run_key") and int(o) & 1 == 0
+                    or d > 0 and shape == "lo_run" and int(o) & 2 == 0) else 0
         count = {"arr": d, "obj": 3 * d + 1, "mixed": d + 2 * (d // 2) + 1, "wide_deep": 3 * d + 1, "ws_run": 3,
-                 "long_string": 3, "long_number": 2, "wide_arr": d + 2, "wide_obj": 3 * d + 4}.get(shape, 0)
+                 "long_string": 3, "long_number": 2, "wide_arr": d + 2, "wide_obj": 3 * d + 4,
+                 "hi_run": 1, "pair_run": 1, "lo_run": 2, "hi_run_key": 4}.get(shape, 0)
         r = (f"parse_str_with {opts_term(o)} {doc}" if entry == "str"
              else f"parse_slice_with {opts_term(o)} (utf8_encode_all {doc})")
         return f"(2, x_c03 ({r}), ({err}, {count}))"
